@@ -206,9 +206,22 @@ def examine_pipeline(case, out: Outcome, *, backends=("polars", "sqlite"), ref_c
                 if q:
                     out.count("engine_quirk:" + q)
                     continue
-                if kind == "polars" and exc_name(ex) == "PanicException" and _noopt_agrees(b.vars[rv], lambda d: None):
-                    # a panic inside the Polars optimizer (the same plan collects without it): engine bug, DESIGN 4.15
-                    out.count("engine_quirk:polars_optimizer_panic")
+                if kind == "polars" and _noopt_agrees(b.vars[rv], lambda d: None):
+                    # the Polars optimizer panics or raises on a plan that collects without it (e.g. a predicate pushed
+                    # into the wrong side of a cross join): engine bug, DESIGN 4.15 (g); the unoptimised result is
+                    # what gets compared below
+                    out.count("engine_quirk:polars_optimizer_" + ("panic" if exc_name(ex) == "PanicException" else "error"))
+                    try:
+                        df = build.export_polars_noopt(b.vars[rv])
+                    except BaseException as ex2:  # noqa: BLE001
+                        reraise_control(ex2)
+                        continue
+                    run.frames[(kind, rv)] = df
+                    if ref_compare:
+                        try:
+                            oracle.compare_ref(run.ref.vars[rv], df, view=view)
+                        except oracle.Mismatch as mm:
+                            out.fail("mismatch", f"{kind}:{mm.kind}:noopt", f"{kind} (unoptimised plan) vs reference at {rv}: {mm}", var=rv)
                     continue
                 out.fail("internal-error", f"{kind}:export:{exc_name(ex)}:{innermost_repo_frame(ex)}",
                          f"{kind} export raised {exc_name(ex)}: {str(ex)[:500]}")
